@@ -111,7 +111,18 @@ def _is_default(schema, tname, v):
     """Default-valued and safe to leave untouched (an unsized bytes field must always be assigned: its
     never-assigned default is the str '' - recorded finding of C01/C10)."""
     from . import apimodel
-    return v == apimodel.default_of(schema, tname) and not _has_unsized_bytes(schema, tname)
+    return _same(v, apimodel.default_of(schema, tname)) and not _has_unsized_bytes(schema, tname)
+
+
+def _same(a, b):
+    """Equality that tells -0.0 from 0.0 (their encodings differ)."""
+    if isinstance(a, float) or isinstance(b, float):
+        return a == b and repr(float(a)) == repr(float(b))
+    if isinstance(a, dict) and isinstance(b, dict):
+        return a.keys() == b.keys() and all(_same(a[k], b[k]) for k in a)
+    if isinstance(a, (list, tuple)) and isinstance(b, (list, tuple)):
+        return len(a) == len(b) and all(_same(x, y) for x, y in zip(a, b))
+    return a == b
 
 
 def build(msg, schema, tname, value, sparse=False):
